@@ -19,12 +19,12 @@ var rawCmpFuncs = map[string]bool{
 
 // reviewed raw comparisons that are not on user/internal keys
 var rawCmpAllowed = map[string]string{
-	"leveldb/table.NewReader|string==": "footer magic and metaindex entry names (\"filter.<name>\"), not user keys",
-	"leveldb/table.NewReader|strings.HasPrefix": "metaindex entry name prefix \"filter.\"",
-	"(*leveldb.session).recover|string==": "comparer NAME recorded in the manifest vs configured comparer name",
+	"leveldb/table.NewReader|string==":                             "footer magic and metaindex entry names (\"filter.<name>\"), not user keys",
+	"leveldb/table.NewReader|strings.HasPrefix":                    "metaindex entry name prefix \"filter.\"",
+	"(*leveldb.session).recover|string==":                          "comparer NAME recorded in the manifest vs configured comparer name",
 	"(*leveldb.sessionRecord).readUvarintMayEOF|strings.HasPrefix": "classifying encoding/binary error text",
-	"(*leveldb.DB).GetProperty|strings.HasPrefix": "property name parsing",
-	"(*leveldb.DB).GetProperty|string==": "property name parsing",
+	"(*leveldb.DB).GetProperty|strings.HasPrefix":                  "property name parsing",
+	"(*leveldb.DB).GetProperty|string==":                           "property name parsing",
 }
 
 var cmpPkgs = []string{"leveldb", "leveldb/table", "leveldb/memdb", "leveldb/iterator"}
